@@ -53,10 +53,11 @@ def main():
     if a.all:
         import json
 
-        man = json.load(open('/verif/MANIFEST.json'))
+        root = os.environ.get('VERIF_ROOT', '/verif')
+        man = json.load(open(os.path.join(root, 'MANIFEST.json')))
         bad = 0
         for c in man['checks']:
-            r = subprocess.run(['/verif/check', c['property_id'], '--tier', a.tier])
+            r = subprocess.run([os.path.join(root, 'check'), c['property_id'], '--tier', a.tier])
             bad += r.returncode != 0
         sys.exit(1 if bad else 0)
     from vlib import runner
